@@ -4,8 +4,8 @@ import numpy as np
 from .util import flt
 
 
-def _ro(a):
-    a = np.array(a, dtype=float)
+def _ro(a, dtype=float):
+    a = np.array(a, dtype=dtype)
     a.setflags(write=False)
     return a
 
@@ -65,6 +65,8 @@ def replay(w):
             K = 2
             joint = bool(nt.get('joint'))
             series = [_ro(np.concatenate([rng.standard_normal((30, 1)) - 4, rng.standard_normal((30, 1)) + 4])) for _ in range(2 if joint else 1)]
+            if nt.get('elem') == 'int64':
+                series = [_ro(np.rint(3 * a), dtype=np.int64) for a in series]
             n = W
             lam = _ro(np.full((n, n), 0.1))
             T = sum(len(s) - W + 1 for s in series)
@@ -102,7 +104,10 @@ def replay(w):
                 return {'reproduced': True, 'signature': 'writes-to-read-only-argument', 'observed': {'raised': repr(exc)}}
             return {'reproduced': True, 'signature': 'call-raises', 'observed': {'raised': repr(exc)}}
         bad = [i for i, (a, s) in enumerate(zip(args, snaps))
-               if not np.array_equal(a.view(np.uint64), s.view(np.uint64))]
+               if a.dtype != s.dtype or not np.array_equal(a.view(np.uint64), s.view(np.uint64))]
+        if kind in ('front', 'failing') and (len(lst) != len(series) or any(x is not y for x, y in zip(lst, series))):
+            return {'reproduced': True, 'signature': 'callers-list-of-series-rebound',
+                    'observed': {'slot_types': [str(getattr(x, 'dtype', type(x))) for x in lst]}}
         return {'reproduced': bool(bad), 'signature': 'argument-modified' if bad else None, 'observed': {'modified_args': bad}}
     except Exception as exc:
         return {'reproduced': True, 'signature': 'call-raises', 'observed': {'raised': repr(exc)}}
